@@ -294,10 +294,10 @@ theorem integrate_grid (cfg : Cfg ℚ) (heps : 0 < cfg.eps) (htol : 0 < cfg.tolE
   · simp only [absC_rat]
     split
     · rename_i h
-      exact ⟨[], by simp, trivial, hdt, rfl, rfl, rfl, fun _ => lt_of_lt_of_le h (le_max_left _ _)⟩
+      exact ⟨[], by simp, trivial, hdt, rfl, rfl, rfl, fun _ => lt_of_lt_of_le h (le_max_right _ _)⟩
     · rename_i hcr hfar
       have hD : target ≠ s.tcur := by
-        intro h; rw [h, sub_self, abs_zero] at hfar; exact hfar heps
+        intro h; rw [h, sub_self, abs_zero] at hfar; exact hfar htol
       have hDne : target - s.tcur ≠ 0 := sub_ne_zero.mpr hD
       have hinit := initialDt_toward cfg hhalf s target hdt hD
       have hinit0 : initialDt cfg s target ≠ 0 := by intro h; rw [h] at hinit; simp at hinit
